@@ -105,3 +105,18 @@ func GenHostile(t *rapid.T) *HostileCase {
 	}
 	return c
 }
+
+func GenNull(t *rapid.T) *NullCase {
+	c := &NullCase{Strict: rapid.Bool().Draw(t, "strict"), Opts: rapid.IntRange(0, 7).Draw(t, "opts")}
+	n := rapid.IntRange(1, 8).Draw(t, "n")
+	for i := 0; i < n; i++ {
+		c.Msgs = append(c.Msgs, NullMsg{
+			Coll: rapid.IntRange(0, 3).Draw(t, "coll"),
+			Op:   rapid.SampledFrom([]string{"insert", "insert", "update", "delete"}).Draw(t, "op"),
+			Key:  rapid.SampledFrom([]string{"a", "b", "a/b"}).Draw(t, "key"),
+			Null: rapid.Bool().Draw(t, "null"),
+			N:    rapid.IntRange(-3, 99).Draw(t, "n"),
+		})
+	}
+	return c
+}
